@@ -137,6 +137,7 @@ fn main() {
                 "C18" => threads::c18(&mut ctx, &mut acc),
                 "C19" => hostile::c19(&mut ctx, &mut acc),
                 "depthprobe" => return hostile::depthprobe(&mut ctx),
+                "oneshot" => return hostile::oneshot(&mut ctx),
                 "C18probe" => return threads::probe(),
                 "C08" => rt::c08(&mut ctx, &mut acc),
                 other => {
